@@ -247,6 +247,10 @@ func (f *Frame) callContract(ct *Contract, callee *ssa.Function, sig *types.Sign
 		o.Callee = key
 	}
 	post := g.clone(pre)
+	// the callee may allocate: advance the watermark first, so that heap versions created by the havoc below
+	// are dated after it (a location the callee writes may hold a pointer to an object it allocated)
+	g.havocAlloc(post, f.curReach)
+	allocDone := true
 	if ct.HasModifies {
 		var items []*modItem
 		for _, m := range ct.Modifies {
@@ -285,11 +289,10 @@ func (f *Frame) callContract(ct *Contract, callee *ssa.Function, sig *types.Sign
 			g.havocNames(post, ms)
 		}
 	}
-	if post.epoch == pre.epoch && post.parents == nil || len(post.heaps) > 0 {
-		if _, ok := post.heaps[allocHeap]; ok || post.epoch == pre.epoch {
-			g.havocAlloc(post, f.curReach)
-		}
+	if post.epoch != pre.epoch {
+		allocDone = false // a new epoch state has its own fresh watermark
 	}
+	_ = allocDone
 	if !ct.NonBlocking {
 		g.advanceClock(f.curReach, pre, post)
 		f.mayBlock(pos, key)
@@ -551,6 +554,8 @@ func (f *Frame) checkItemsAllowed(items []*modItem, pos token.Pos, callee string
 		for _, it := range items {
 			var goal string
 			switch it.kind {
+			case "ghost":
+				continue // ghost state is not part of any frame
 			case "star":
 				goal = "false"
 				for _, x := range sc.items {
